@@ -121,6 +121,15 @@ Theorem C19_integer_ranges :
   /\ representable avro_cfg "filesize" (VInt (-9223372036854775809)) = false.
 Proof. split; [exact representable_int|repeat split; reflexivity]. Qed.
 
+(* an object whose _packdict() lacks the fields of its descriptor (a GroupedRecord: the dict is empty) is refused and
+   nothing changes: the union of a datetime field -- every record has _generated -- has no "null" STRING member, so
+   fastavro finds no value and no default *)
+Theorem C19_refuses_missing_values : forall to_f32 of_int d sch st r,
+  descriptor_to_schema avro_cfg d = Some sch -> est d sch st -> desc_eqb d (r_desc r) = true ->
+  r_vals r = map (fun _ => VMissing) (all_fields avro_cfg d) ->
+  exists e, step to_f32 of_int avro_cfg avro_code st (OWrite r) = (st, Refused e).
+Proof. exact write_all_missing. Qed.
+
 (* a second record type in one file: refused, the writer's state (and so the file) is unchanged *)
 Theorem C19_refuses_second_descriptor : forall to_f32 of_int d sch st r,
   est d sch st -> desc_eqb d (r_desc r) = false ->
